@@ -45,6 +45,7 @@ class Spec:
     # this many times; "dict" round-trips the context through to_dict()/from_dict() + JSON first
     continue_runs: int = 0
     continue_via: str = "ctx"
+    resume_count: int = 1  # with resume=True: how many snapshot+resume actions one execution may take
 
 
 def limits_of(wf: Any) -> dict[str, int]:
@@ -107,10 +108,12 @@ def run_engine(ex: Execution, spec: Spec, oracle: Oracle) -> tuple[Any, list[Any
                 state["resumed"] = True
                 state["wf"] = wf2
                 h.workflow = wf2
-                state["hd"] = wf2.run(ctx=Context.from_dict(wf2, snap), run_id="r2")
+                state["n_resumes"] = state.get("n_resumes", 0) + 1
+                state["hd"] = wf2.run(ctx=Context.from_dict(wf2, snap), run_id=f"r{state['n_resumes'] + 1}")
                 state["consumer"] = e.consume_stream(state["hd"])
 
-            e.add_script([Action("snapshot+resume", do_resume)])
+            e.add_script([Action(f"snapshot+resume#{i + 1}" if spec.resume_count > 1 else "snapshot+resume", do_resume)
+                          for i in range(spec.resume_count)])
         cfg.stop_when = lambda hh: state["hd"].is_done() and hh.stream_done
         e.drive()
         for n_cont in range(spec.continue_runs):
